@@ -43,16 +43,19 @@ theorem protocol_safe_3 : PGood Generated.protocol 3 := pgood_of_cert cert_3_che
 theorem refinement (P : Protocol) (cfg : Cfg) (hc : cfg.conformant P = true) :
     ∀ s, Reach cfg s → PReach P cfg.codes.length (proj cfg s) := sim hc
 
-/-- three threads: `_documents` iteration with a throwing consumer, a write, a failing read -/
+/-- three threads: `_documents` iteration with a throwing consumer; a write and the creation of a
+    TTL index; a failing read, an expiry pass and the drop of a TTL index -/
 def sampleScenario : Scenario :=
-  { docs0 := [0, 1], idx0 := [], ttl0 := [], expired := [0],
-    progs := [[{ m := .documents, throwAt := 1 }], [{ m := .setItem, key := 2 }],
-              [{ m := .getItem, key := 2 }, { m := .expireDocuments }]] }
+  { docs0 := [0, 1], idx0 := [0], ttl0 := [0], expired := [0],
+    progs := [[{ m := .documents, throwAt := 1 }],
+              [{ m := .setItem, key := 2 }, { m := .createIndexTtl, key := 1 }],
+              [{ m := .getItem, key := 2 }, { m := .expireDocuments }, { m := .dropIndex, key := 0 }]] }
 
 def sampleCfg : Cfg := mkCfg Generated.protocol Generated.discipline sampleScenario
 
 theorem sample_ok : sampleCfg.conformant Generated.protocol = true ∧ sampleCfg.disciplined = true ∧
-    sampleCfg.ttlFrozen = true ∧ sampleCfg.codes.length = 3 := by decide +kernel
+    sampleCfg.mutatesTtl = true ∧ sampleCfg.walksTtl = true ∧ sampleCfg.codes.length = 3 := by
+  decide +kernel
 
 example : ∃ cfg : Cfg, cfg.conformant Generated.protocol = true := ⟨sampleCfg, sample_ok.1⟩
 
@@ -66,7 +69,7 @@ theorem store_methods_conformant :
     allMethods.all (fun m =>
       let code := compile Generated.protocol Generated.discipline [{ m := m, key := 1, throwAt := 1 }]
       conformant Generated.protocol code && docsGuarded code && docsIterScoped code &&
-        noNestedDel code) = true := by decide +kernel
+        noNestedDel code && ttlIterSnapshotted code) = true := by decide +kernel
 
 /-- N = 2 or 3 threads, ANY conformant programs: no exclusion violation (two writers, or a writer
     with a reader, inside), no lock still held / counter non-zero once all threads are outside
@@ -81,21 +84,44 @@ theorem released_and_deadlock_free (cfg : Cfg) (hc : cfg.conformant Generated.pr
   · exact program_safe hc (h ▸ protocol_safe_3) s hr
 
 example : sampleCfg.conformant Generated.protocol = true ∧
-    (sampleCfg.codes.length = 2 ∨ sampleCfg.codes.length = 3) := ⟨sample_ok.1, Or.inr sample_ok.2.2.2⟩
+    (sampleCfg.codes.length = 2 ∨ sampleCfg.codes.length = 3) :=
+  ⟨sample_ok.1, Or.inr sample_ok.2.2.2.2⟩
 
-/-! ## the property, full strength and what holds -/
+/-! ## the property -/
 
-/-- full statement: every reachable state of every (≤ 3 thread) program over the store methods
-    is free of exclusion violations, internal errors, leaked locks and deadlock -/
-def thread_safe_full : Prop :=
-  ∀ sc : Scenario, sc.progs.length = 2 ∨ sc.progs.length = 3 →
-    ∀ s, Reach (mkCfg Generated.protocol Generated.discipline sc) s →
-      bad [] (mkCfg Generated.protocol Generated.discipline sc) s = false ∧
-      deadlocked (mkCfg Generated.protocol Generated.discipline sc) s = false
+/-- N = 2 or 3 threads, ANY programs — reads, writes, expiry passes, creation of (TTL) indexes,
+    index drops — whose compiled code is conformant and disciplined (decidable; true of all code
+    compiled from the regenerated discipline, see `store_methods_conformant`; recomputed by the
+    driver for every generated scenario): no reachable state has an exclusion violation, an
+    internal error of any kind (`faulted []`: changed-size / mutated-during-iteration errors,
+    a key vanished under the expiry pass, a failing lock release), or a leaked lock, and none is
+    deadlocked.  There is no exclusion class any more: the former hypothesis `ttlFrozen` (no thread
+    creates a TTL index or drops an index; known finding `ttl-index-race`, repaired) is gone. -/
+theorem thread_safe (cfg : Cfg) (hc : cfg.conformant Generated.protocol = true)
+    (hd : cfg.disciplined = true)
+    (hn : cfg.codes.length = 2 ∨ cfg.codes.length = 3) (s : State) (hr : Reach cfg s) :
+    bad [] cfg s = false ∧ deadlocked cfg s = false := by
+  rcases hn with h | h
+  · exact program_correct hc (h ▸ protocol_safe_2) hd s hr
+  · exact program_correct hc (h ▸ protocol_safe_3) hd s hr
 
-/-- KNOWN FINDING `ttl-index-race`: `_ttl_indexes` is iterated and mutated outside any lock
-    section; thread 0 is inside `_remove_expired_documents` of `1 in store` when thread 1 creates
-    a second TTL index, and thread 0's next `next()` raises "dictionary changed size" -/
+/-- the hypotheses are satisfied by a program that creates a TTL index, drops a TTL index and runs
+    expiry passes concurrently -/
+example : sampleCfg.conformant Generated.protocol = true ∧ sampleCfg.disciplined = true ∧
+    sampleCfg.mutatesTtl = true ∧ sampleCfg.walksTtl = true ∧
+    (sampleCfg.codes.length = 2 ∨ sampleCfg.codes.length = 3) :=
+  ⟨sample_ok.1, sample_ok.2.1, sample_ok.2.2.1, sample_ok.2.2.2.1, Or.inr sample_ok.2.2.2.2⟩
+
+/-! ### the finding `ttl-index-race` (fixed): what the discipline of store.py was before
+
+  `_remove_expired_documents` iterated the live `_ttl_indexes` dict, which `create_index` /
+  `drop_index` change outside every section.  The schedule that made the unrepaired code raise
+  "dictionary changed size during iteration" still does so in the model of the UNREPAIRED
+  discipline (`unrepairedDiscipline`), and the same scenario compiled from the regenerated
+  discipline satisfies the hypotheses of `thread_safe`. -/
+
+/-- thread 0 is inside `_remove_expired_documents` of `1 in store` when thread 1 creates a second
+    TTL index -/
 def ttlRaceScenario : Scenario :=
   { docs0 := [0, 1], idx0 := [], ttl0 := [0], expired := [0],
     progs := [[{ m := .contains, key := 1 }], [{ m := .createIndexTtl, key := 1 }]] }
@@ -104,39 +130,39 @@ def ttlRaceSchedule : List Nat :=
   [0, 0, 1, 1, 0, 0, 0, 0, 0, 0, 0, 0, 0, 0, 0, 0, 0, 0, 0, 0, 0, 0, 0, 0, 0, 0, 0, 0, 0, 0, 0, 0,
    0, 0, 0]
 
-theorem ttl_race_witness :
-    (match runSched (mkCfg Generated.protocol Generated.discipline ttlRaceScenario)
-        (initState (mkCfg Generated.protocol Generated.discipline ttlRaceScenario))
-        ttlRaceSchedule with
+def unrepairedCfg : Cfg := mkCfg Generated.protocol unrepairedDiscipline ttlRaceScenario
+
+/-- under the OLD discipline thread 0's next `next()` on the dict iterator raises -/
+theorem unrepaired_ttl_race :
+    (match runSched unrepairedCfg (initState unrepairedCfg) ttlRaceSchedule with
      | some s => faulted [] s
      | none => false) = true := by decide +kernel
 
-theorem thread_safe_full_fails : ¬ thread_safe_full := by
-  intro h
-  have hw := ttl_race_witness
+/-- hence the property fails for the old discipline: a reachable state with an internal error -/
+theorem unrepaired_not_thread_safe : ∃ s, Reach unrepairedCfg s ∧ bad [] unrepairedCfg s = true := by
+  have hw := unrepaired_ttl_race
   split at hw
   · rename_i s hs
-    have hr := reach_run ttlRaceSchedule _ s Reach.init hs
-    have := (h ttlRaceScenario (Or.inl rfl) s hr).1
-    simp only [bad, Bool.or_eq_false_iff] at this
-    rw [this.1.2] at hw
-    exact Bool.false_ne_true hw
-  · exact Bool.false_ne_true hw
+    exact ⟨s, reach_run ttlRaceSchedule _ s Reach.init hs, by simp [bad, hw]⟩
+  · exact absurd hw Bool.false_ne_true
 
-/-- what holds: exclusion class `ttl-index-race` removed (`ttlFrozen`: no thread creates a TTL
-    index or drops an index), programs conformant and disciplined (decidable; true of all code
-    compiled from the regenerated discipline, see `store_methods_conformant`) -/
-theorem thread_safe_partial (cfg : Cfg) (hc : cfg.conformant Generated.protocol = true)
-    (hd : cfg.disciplined = true) (hfz : cfg.ttlFrozen = true)
-    (hn : cfg.codes.length = 2 ∨ cfg.codes.length = 3) (s : State) (hr : Reach cfg s) :
-    bad [] cfg s = false ∧ deadlocked cfg s = false := by
-  rcases hn with h | h
-  · exact program_correct hc (h ▸ protocol_safe_2) hd hfz s hr
-  · exact program_correct hc (h ▸ protocol_safe_3) hd hfz s hr
+/-- and `thread_safe` does not apply to it: the old code is conformant to the lock protocol but
+    not disciplined (it iterates the live `_ttl_indexes`) -/
+theorem unrepaired_not_disciplined :
+    unrepairedCfg.conformant Generated.protocol = true ∧ unrepairedCfg.disciplined = false := by
+  decide +kernel
 
-example : sampleCfg.conformant Generated.protocol = true ∧ sampleCfg.disciplined = true ∧
-    sampleCfg.ttlFrozen = true ∧ (sampleCfg.codes.length = 2 ∨ sampleCfg.codes.length = 3) :=
-  ⟨sample_ok.1, sample_ok.2.1, sample_ok.2.2.1, Or.inr sample_ok.2.2.2⟩
+/-- the same scenario compiled from the regenerated (repaired) discipline: the hypotheses of
+    `thread_safe` hold, so NO schedule leads to an error; in particular the old one does not -/
+def repairedCfg : Cfg := mkCfg Generated.protocol Generated.discipline ttlRaceScenario
+
+theorem repaired_ok : repairedCfg.conformant Generated.protocol = true ∧
+    repairedCfg.disciplined = true ∧ repairedCfg.mutatesTtl = true ∧
+    repairedCfg.walksTtl = true ∧ repairedCfg.codes.length = 2 := by decide +kernel
+
+theorem repaired_ttl_race_gone (s : State) (hr : Reach repairedCfg s) :
+    bad [] repairedCfg s = false ∧ deadlocked repairedCfg s = false :=
+  thread_safe repairedCfg repaired_ok.1 repaired_ok.2.1 (Or.inl repaired_ok.2.2.2.2) s hr
 
 /-! ## (a) the reference protocol, ANY number of threads -/
 
@@ -197,15 +223,15 @@ theorem released_on_raise :
 theorem reference_protocol_good (n : Nat) : PGood referenceProtocol n := reference_good n
 
 /-- the property for ANY number of threads: since the regenerated protocol is the reference
-    protocol, every conformant, disciplined program that leaves `_ttl_indexes` alone has no bad and
-    no deadlocked reachable state -/
-theorem thread_safe_partial_any_n (cfg : Cfg) (hc : cfg.conformant Generated.protocol = true)
-    (hd : cfg.disciplined = true) (hfz : cfg.ttlFrozen = true) (s : State) (hr : Reach cfg s) :
+    protocol, every conformant, disciplined program — TTL index creation and index drops
+    included — has no bad and no deadlocked reachable state -/
+theorem thread_safe_any_n (cfg : Cfg) (hc : cfg.conformant Generated.protocol = true)
+    (hd : cfg.disciplined = true) (s : State) (hr : Reach cfg s) :
     bad [] cfg s = false ∧ deadlocked cfg s = false :=
-  program_correct hc (protocol_is_reference ▸ reference_good _) hd hfz s hr
+  program_correct hc (protocol_is_reference ▸ reference_good _) hd s hr
 
 example : sampleCfg.conformant Generated.protocol = true ∧ sampleCfg.disciplined = true ∧
-    sampleCfg.ttlFrozen = true := ⟨sample_ok.1, sample_ok.2.1, sample_ok.2.2.1⟩
+    sampleCfg.mutatesTtl = true := ⟨sample_ok.1, sample_ok.2.1, sample_ok.2.2.1⟩
 
 /-! ## (c) a reader sees one state -/
 
